@@ -242,7 +242,8 @@ def derived_patterns(program, rnd, per_program):
 # follow-up searches: the second pattern continues a match of the first (use_previous)
 FOLLOW_UPS = [("for _item_ in ___:\n    pass", "_item_ + 1"), ("for _item_ in ___:\n    pass", "_item_ + ___"),
               ("_x_ = 0", "_x_ + 1"), ("_x_ = 0", "_x_ = _x_ + ___"), ("_x_ = ___", "print(_x_)"), ("_x_ = ___", "_x_ * 2"),
-              ("def _f_(___):\n    pass", "_f_(___)"), ("_a_ = 2", "_a_ * _b_"), ("_a_ = 2", "_b_ * _a_ + ___")]
+              ("def _f_(___):\n    pass", "_f_(___)"), ("_a_ = 2", "_a_ * _b_"), ("_a_ = 2", "_b_ * _a_ + ___"),
+              ("_x_ = __e__", "__e__ + 1"), ("_x_ = __e__", "__e__ * 2"), ("print(__e__)", "__e__ + ___"), ("_x_ = __e__", "print(__e__)")]
 
 
 def run_matcher(pattern, program):
